@@ -153,6 +153,18 @@ def check_free_symbols(ctx):
     recu = any(s == "return set().union(*map(%s, data))" % rec.name for s in src)
     ctx.ob("R14.2", CAT + ".Box.__init__:free-symbols-leaf", leaf, found=src, required="a leaf contributes data.free_symbols when it has any", mod=CAT, node=rec, sig="fs-leaf")
     ctx.ob("R14.2", CAT + ".Box.__init__:free-symbols-recursive", recu, found=src, required="containers contribute the union over their elements", mod=CAT, node=rec, sig="fs-rec")
+    # the recursion descends into every Iterable: a non-empty string iterates to strings for ever, so strings must be leaves
+    guarded = False
+    for st in ast.walk(rec):
+        if isinstance(st, ast.If):
+            mentions_str = any(isinstance(c, ast.Call) and ast.unparse(c.func) == "isinstance" and len(c.args) == 2 and
+                               any(ast.unparse(e) in ("str", "bytes") for e in (c.args[1].elts if isinstance(c.args[1], ast.Tuple) else [c.args[1]])) for c in ast.walk(st.test))
+            rec_inside = any(isinstance(c, ast.Name) and c.id == rec.name for b in st.body for c in ast.walk(b))
+            returns_first = st.body and isinstance(st.body[-1], ast.Return) and not rec_inside
+            if mentions_str and (rec_inside or returns_first):
+                guarded = True
+    ctx.ob("R14.2", CAT + ".Box.__init__:free-symbols-strings", guarded, found="strings are leaves" if guarded else "the recursion descends into every Iterable, strings included",
+           required="strings are not descended into (each character of a string is again a non-empty string: the recursion would not end)", mod=CAT, node=rec, sig="fs-str")
     maps = [s for s in rec.body if isinstance(s, ast.If) and "Mapping" in ast.unparse(s.test)]
     ctx.ob("R14.2", CAT + ".Box.__init__:free-symbols-mappings", bool(maps) and ast.unparse(maps[0].body[0]) == "data = data.values()", found=[ast.unparse(s)[:60] for s in maps],
            required="mappings contribute their values", mod=CAT, node=rec, sig="fs-map")
@@ -226,7 +238,7 @@ def check(ctx):
     check_free_symbols(ctx)
     check_diagram_level(ctx)
     ctx.floor("R14.1", 60)
-    ctx.floor("R14.2", 12)
+    ctx.floor("R14.2", 13)
     ctx.floor("R14.3", 9)
     ctx.assumptions += ["data parameters are modelled as scalar symbolic expressions (not containers)", "parameters documented as `int or type` are types when not ints"]
     ctx.not_decided += ["numeric commutation of eval and subs on concrete floats (sympy/numpy interplay)"]
